@@ -17,6 +17,7 @@ from ..core import where_of, trace_of
 from ..interp import fmt, contains, subterms
 from ..model import AnalysisError
 from .. import q
+from .. import roles
 from .c03 import terminal_on
 
 
@@ -29,8 +30,8 @@ def check(ctx, rep):
     rep.rule("R-COMPOSE", "f_zip() of nothing is an empty tuple; f_sequence(fs) = f_traverse(identity, fs); f_traverse(fn, xs) = f_map(f_zip(*[fn(x) for x in xs]), list) and a raising fn yields a failed future")
     Z = prog.cls("Zipper")
     init = Z.methods.get("__init__")
-    hd = Z.methods.get("handle_done")
-    rep.require(init is not None and hd is not None, "Zipper.__init__ / handle_done not found")
+    rep.require(init is not None, "Zipper.__init__ not found")
+    hd = roles.input_callback(ctx, Z)
     SELF = ("param", "self")
     OUT = ("attr", SELF, "out")
     L = ("attr", SELF, "lock")
@@ -49,8 +50,8 @@ def check(ctx, rep):
         elem = q.recv(r)
         src = elem[1]
         cb = r.d["args"][0]
-        inner = p.heap.get(("attr", cb, "_WeakCallback__delegate")) if isinstance(cb, tuple) and cb[0] == "new" else cb
-        ok = isinstance(inner, tuple) and inner[0] == "partial" and inner[1] == ("attr", SELF, "handle_done") and len(inner[2]) == 1 and not inner[3]
+        inner = roles.unwrap(ctx, p, cb, it)
+        ok = isinstance(inner, tuple) and inner[0] == "partial" and inner[1] == ("attr", SELF, hd.name) and len(inner[2]) == 1 and not inner[3]
         idx = inner[2][0] if ok else None
         ok = ok and isinstance(idx, tuple) and idx[0] == "index" and idx[1] == src and idx[2] == elem[2]
         rep.ob("R-INDEX", "Zipper.__init__: callback bound to the element's own index", ok, "the callback must be partial(self.handle_done, <index of this element from the same enumerate>), found %s" % fmt(inner), where_of(init, r.node), trace_of(p, r.seq))
@@ -187,7 +188,7 @@ def check(ctx, rep):
             rep.ob("R-COMPOSE", "f_zip() without inputs is a resolved empty tuple", ok, "returns %s" % fmt(v), where_of(fz))
     rep.require(kinds == {"some", "none"}, "f_zip: expected the empty and the non-empty path")
     ft = prog.fn("sequence:f_traverse")
-    ps, it = ctx.paths(ft, None, depth=1, inline=_copy_only)
+    ps, it = ctx.paths(ft, None, depth=1, inline=_copy_only, unroll=2)
     kinds = set()
     FN, XS = ("param", ft.params[0]), ("param", ft.params[1])
     for p in ps:
@@ -195,8 +196,19 @@ def check(ctx, rep):
             rep.ob("R-COMPOSE", "f_traverse turns an exception from fn into a failed future", False, "f_traverse itself raises %s" % fmt(p.value), where_of(ft), trace_of(p))
             continue
         ucalls = [e for e in p.calls() if e.d.get("user")]
-        rep.ob("R-COMPOSE", "f_traverse calls fn once per element, in iteration order", len(ucalls) == 1 and ucalls[0].d["func"] == FN and len(ucalls[0].d["args"]) == 1 and ucalls[0].d["args"][0][:2] == ("elem", XS) and not ucalls[0].d["kwargs"], "user calls: %s" % [("%s(%s)" % (fmt(e.d["func"]), ", ".join(fmt(a) for a in e.d["args"]))) for e in ucalls], where_of(ft), trace_of(p))
-        if p.evs("catch"):
+        loops = [e for e in p.evs("loop") if e.fn is ft]
+        caught = bool(p.evs("catch"))
+        shape = all(e.d["func"] == FN and len(e.d["args"]) == 1 and e.d["args"][0][:2] == ("elem", XS) and not e.d["kwargs"] for e in ucalls)
+        if loops and not any(e.d[0] == "exit" and e.d[1] == "comprehension" for e in loops) and not (caught and len(loops) == 1 and not any(e.d[0] in ("back", "exit") for e in loops) and _comp_source(ft)):
+            # statement form: for x in xs: <list>.append(fn(x))
+            enters = [e for e in loops if e.d[0] == "enter"]
+            n_iter = len([e for e in loops if e.d[0] == "back"])
+            early = [e for e in loops if e.d[0] == "exit" and e.d[1] in ("break", "return")]
+            shape = shape and len(enters) == 1 and roles.container_of(enters[0].d[1]) == XS and not early and len(ucalls) == n_iter + (1 if caught else 0)
+        else:
+            shape = shape and len(ucalls) == 1
+        rep.ob("R-COMPOSE", "f_traverse calls fn once per element, in iteration order", shape, "user calls: %s" % [("%s(%s)" % (fmt(e.d["func"]), ", ".join(fmt(a) for a in e.d["args"]))) for e in ucalls], where_of(ft), trace_of(p))
+        if caught:
             kinds.add("fn raised")
             v = p.value
             term = [e for e in p.calls() if q.call_name(e) in ("set_exception", "set_exception_info") and q.recv(e) == v]
@@ -206,9 +218,15 @@ def check(ctx, rep):
             kinds.add("ok")
             zc = [e for e in p.calls() if e.d["callee"] is fz or q.call_name(e) == "f_zip"]
             mc = [e for e in p.calls() if q.call_name(e) == "f_map"]
-            okz = len(zc) == 1 and len(zc[0].d["args"]) == 1 and zc[0].d["args"][0][0] == "star" and zc[0].d["args"][0][1][0] == "comp" and zc[0].d["args"][0][1][1] == "ListComp" and zc[0].d["args"][0][1][3] == (XS,) and not zc[0].d["args"][0][1][4]
-            rep.ob("R-COMPOSE", "f_traverse zips the futures of all elements in order", okz, "f_zip called with %s" % ([fmt(a) for a in zc[0].d["args"]] if zc else None), where_of(ft), trace_of(p))
-            okm = len(mc) == 1 and zc and mc[0].d["args"][:1] == (("call", zc[0].d["func"], zc[0].d["args"], zc[0].d["kwargs"], None),) and mc[0].d["args"][1:] == (("name", "list"),) and not mc[0].d["kwargs"]
+            okz = len(zc) == 1 and len(zc[0].d["args"]) == 1 and zc[0].d["args"][0][0] == "star" and not zc[0].d["kwargs"]
+            if okz:
+                seq = zc[0].d["args"][0][1]
+                if seq[0] == "comp":
+                    okz = seq[1] == "ListComp" and seq[3] == (XS,) and not seq[4]
+                else:
+                    okz = q.deref(p, seq) == ("list", tuple(q.result_of(e) for e in ucalls))
+            rep.ob("R-COMPOSE", "f_traverse zips the futures of all elements in order", okz, "f_zip called with %s" % ([fmt(q.deref(p, a)) for a in zc[0].d["args"]] if zc else None), where_of(ft), trace_of(p))
+            okm = len(mc) == 1 and zc and mc[0].d["args"][:1] == (q.result_of(zc[0]),) and mc[0].d["args"][1:] == (("name", "list"),) and not mc[0].d["kwargs"]
             rep.ob("R-COMPOSE", "f_traverse maps the zipped tuple to a list", okm, "f_map called with %s" % ([fmt(a) for a in mc[0].d["args"]] if mc else None), where_of(ft), trace_of(p))
     rep.require(kinds == {"fn raised", "ok"}, "f_traverse: expected a normal path and a path where fn raises")
     fs = prog.fn("sequence:f_sequence")
@@ -216,14 +234,14 @@ def check(ctx, rep):
     for p in ps:
         tc = [e for e in p.calls() if e.d["callee"] is ft]
         ok = len(tc) == 1 and len(tc[0].d["args"]) == 2 and tc[0].d["args"][1] == ("param", fs.params[0])
-        ident = False
-        if ok:
-            a = tc[0].d["args"][0]
-            sub = it.closures[a[2]][0] if isinstance(a, tuple) and a[0] == "closure" else (prog.functions.get(a[1]) if isinstance(a, tuple) and a[0] == "func" else None)
-            if sub is not None:
-                ps2, _ = ctx.paths(sub, None, depth=0)
-                ident = len(sub.params) == 1 and all(p2.status == "return" and p2.value == ("param", sub.params[0]) for p2 in ps2)
+        ident = ok and roles.is_identity(ctx, tc[0].d["args"][0])
         rep.ob("R-COMPOSE", "f_sequence is f_traverse(identity, futures)", ok and ident, "", where_of(fs), trace_of(p))
+
+
+def _comp_source(fi):
+    """does the function build its list with a comprehension (rather than a for statement)?"""
+    import ast
+    return any(isinstance(n, (ast.ListComp, ast.GeneratorExp)) for n in ast.walk(fi.node)) and not any(isinstance(n, ast.For) for n in ast.walk(fi.node))
 
 
 def _is_zero_test(t, v, dec, cn):
@@ -258,7 +276,7 @@ def _is_zero_test(t, v, dec, cn):
 
 
 def _weak_only(callee, ev, path):
-    return callee.name == "__init__" and callee.owner is not None and callee.owner.name == "WeakCallback"
+    return roles.inline_wrapper_ctor(callee, ev, path)
 
 
 def _copy_only(callee, ev, path):
